@@ -1,3 +1,37 @@
 import ClipVerif.Gen.Funcs
 namespace Proofs.C04
+open Gen
+
+/-- Go `level & 1` on a 64-bit int is the parity of `level`, for every integer (wrap-around to
+    64 bits preserves parity) -/
+theorem intAnd64_one (l : Int) : intAnd64 l 1 = l % 2 := by
+  unfold intAnd64
+  have h1 : (Int64.ofInt 1).toBitVec = 1#64 := rfl
+  rw [← Int64.toInt_toBitVec, Int64.toBitVec_and, BitVec.toInt_and, h1]
+  simp [Nat.and_one_is_mod]
+  rw [Int.max_eq_left (Int.emod_nonneg _ (by decide)), Int.bmod_def]
+  split <;> omega
+
+theorem isHole_eq (level : Int) :
+    PolyPathBase_IsHole level = (decide (level ≠ 0) && decide (level % 2 = 0)) := by
+  simp [PolyPathBase_IsHole, Id.run, pure, intAnd64_one]
+
+theorem isHole_iff (level : Int) :
+    PolyPathBase_IsHole level = true ↔ (level ≠ 0 ∧ level % 2 = 0) := by
+  rw [isHole_eq]; simp
+
+theorem isHole_alternates (level : Int) (h : 1 ≤ level) :
+    PolyPathBase_IsHole (level + 1) = !PolyPathBase_IsHole level := by
+  rw [isHole_eq, isHole_eq]
+  have h1 : level + 1 ≠ 0 := by omega
+  have h2 : level ≠ 0 := by omega
+  by_cases h3 : level % 2 = 0
+  · have h4 : ¬ ((level + 1) % 2 = 0) := by omega
+    simp [h1, h2, h3, h4]
+  · have h4 : (level + 1) % 2 = 0 := by omega
+    simp [h1, h2, h3, h4]
+
+theorem top_level_not_hole : PolyPathBase_IsHole 1 = false ∧ PolyPathBase_IsHole 0 = false := by
+  rw [isHole_eq, isHole_eq]; decide
+
 end Proofs.C04
